@@ -79,6 +79,10 @@ func (c *PushedAuthorizeHandler) HandlePushedAuthorizeEndpointRequest(ctx contex
 		ar.GetRequestForm().Del(key)
 	}
 
+	// The id of a request is assigned lazily on first use. Assign it now: once the request is stored it is shared
+	// with every authorization that starts from this request_uri.
+	ar.GetID()
+
 	// store
 	if err = storage.CreatePARSession(ctx, requestURI, ar); err != nil {
 		return errorsx.WithStack(fosite.ErrServerError.WithHint("Unable to store the PAR session").WithWrap(err).WithDebug(err.Error()))
